@@ -147,7 +147,7 @@ func (pc *probe) runFetch(defSet core.DutyDefinitionSet, want string, mk func(co
 		for i, o := range objs {
 			inputs[fmt.Sprintf("beacon-node/upstream object %d of call %d", i, round)] = pc.reach(o)
 		}
-		if n := len(rig.fan.snapshot()); n != 2*round {
+		if n := len(rig.fan.snapshot()); n != pc.nsubs*round {
 			pc.inconclusive("fetcher subscribers got %d deliveries after call %d", n, round)
 			return
 		}
@@ -232,7 +232,7 @@ func (pc *probe) runFetch(defSet core.DutyDefinitionSet, want string, mk func(co
 		cinputs[fmt.Sprintf("beacon-node/upstream object %d", i)] = pc.reach(o)
 	}
 	dels := rig.fan.snapshot()
-	if len(dels) != 2*g && len(errs) == 0 {
+	if len(dels) != pc.nsubs*g && len(errs) == 0 {
 		pc.inconclusive("fetcher subscribers got %d deliveries from %d concurrent fetches", len(dels), g)
 	}
 	pc.checkFan(rig.fan, dels, cinputs, expect, "after the concurrent phase")
@@ -244,8 +244,8 @@ func newFetchRig(pc *probe, bm beaconmock.Mock, duty core.Duty, concurrent bool,
 	if err != nil {
 		return nil, err
 	}
-	fn := &fan{pc: pc, name: "fetcher fan-out", mutator: pc.rng.Intn(2), concurrent: concurrent}
-	for s := 0; s < 2; s++ {
+	fn := &fan{pc: pc, name: "fetcher fan-out", mutator: pc.rng.Intn(pc.nsubs), concurrent: concurrent}
+	for s := 0; s < pc.nsubs; s++ {
 		s := s
 		f.Subscribe(func(_ context.Context, _ core.Duty, set core.UnsignedDataSet) error {
 			fn.recv(s, set)
